@@ -30,4 +30,4 @@ ASSUMPTIONS = [
 def run(ctx):
     if not ctx.replay:
         ctx.mc('MC_Transpile', 'MC_Transpile', timeout=600, coverage=False)
-    T.run_property(ctx, 'f2c', T.f2c_transform, T.f2c_execute, CORE, POOLS, QUICK, THOROUGH, ASSUMPTIONS)
+    T.run_property(ctx, 'f2c', T.f2c_transform, T.f2c_execute_batch, CORE, POOLS, QUICK, THOROUGH, ASSUMPTIONS)
